@@ -41,6 +41,7 @@ type regEnv struct {
 	regd    int  // players registered so far
 	done    []RegOp
 	inCall  string
+	reqs    int // requestTableFn calls within the current regulator call
 }
 
 func (e *regEnv) replay() interface{} {
@@ -74,8 +75,13 @@ func newRegEnv(o *Out, c RegCase) *regEnv {
 				o.Violate("C19", "table-opened-before-min-registered", fmt.Sprintf("%d registered, min %d", e.regd, c.Min), e.replay())
 			}
 			if len(players) > c.Max {
-				o.Violate("C19", "over-capacity:request-table", fmt.Sprintf("requestTableFn called with %d players, max %d (during %s)", len(players), c.Max, e.inCall), e.replay())
+				kind := "over-capacity:request-table"
+				if !e.f12aShape(len(players)) {
+					kind = "over-capacity:request-table:other-shape"
+				}
+				o.Violate("C19", kind, fmt.Sprintf("requestTableFn called with %d players, max %d (during %s)", len(players), c.Max, e.inCall), e.replay())
 			}
+			e.reqs++
 			if e.initial && len(players) < c.Min {
 				o.Violate("C19", "initial-table-below-min", fmt.Sprintf("initial allocation opened a table of %d, min %d", len(players), c.Min), e.replay())
 			}
@@ -100,6 +106,32 @@ func newRegEnv(o *Out, c RegCase) *regEnv {
 			return nil
 		}))
 	return e
+}
+
+// f12aShape: the shape of the recorded defect F12a — a table after the first one opened by the same
+// allocation, sized floor(waiting / (tables wanted - tables open)) with no cap at the maximum.
+// (The first table of an allocation is sized floor(players / tables wanted) <= max, or takes the whole
+// queue only when that is shorter than max.)  Everything is computed from what the environment knows.
+func (e *regEnv) f12aShape(k int) bool {
+	if e.reqs == 0 {
+		return false
+	}
+	alive, waiting := 0, 0
+	for _, w := range e.where {
+		if w != -1 {
+			alive++
+		}
+		if w == 0 {
+			waiting++
+		}
+	}
+	open := len(e.tables)
+	for _, wanted := range []int{(alive + e.c.Max - 1) / e.c.Max, alive / e.c.Max} {
+		if left := wanted - open; left >= 1 && k == waiting/left {
+			return true
+		}
+	}
+	return false
 }
 
 func (e *regEnv) handOut(players []string, id int, site string) {
@@ -212,6 +244,7 @@ func (e *regEnv) checkInv(where string) {
 
 func (e *regEnv) beginCall(name string) {
 	e.events, e.choices = nil, nil
+	e.reqs = 0
 	e.initial = e.r.GetTableCount() == 0
 	e.inCall = name
 }
